@@ -296,6 +296,25 @@ def r12_6(ctx):
            "the separator search runs over the whitespace after a number and nothing gives it back: the unchecked iterators / get return `1 ` for `[1 , 2]` while the checked ones return `1`")
 
 
+def r12_8(ctx):
+    """member names are yielded by the validating, decoding key parser: the `key` of the entry built by parse_entry_lazy
+    derives from no parser routine other than parse_str (a short-cut that borrows the bytes up to the next quote skips
+    the control-character test and the escape decoding)"""
+    prog = ctx.prog()
+    f = prog.find("Parser::parse_entry_lazy")
+    aggs = [(b, i, s_) for b, i, s_ in f.assigns() if s_["rv"]["k"] == "agg" and (s_["rv"].get("adt") or "").endswith("parser::Pair")]
+    ctx.floor("R12.8", "Pair built in parse_entry_lazy", len(aggs), 1)
+    for k, (b, i, s_) in enumerate(aggs, 1):
+        rv = s_["rv"]
+        ko = rv["f"][rv["fields"].index("key")] if "key" in (rv.get("fields") or []) else None
+        l = op_local(ko) if ko else None
+        sl, leaves = backward_slice(f, [l]) if l is not None else (set(), [])
+        producers = sorted({lf[2]["callee"].rsplit("::", 1)[-1] for lf in leaves if lf[0] == "call" and lf[2]["callee"] in prog.fns and (prog.fns[lf[2]["callee"]].self_adt or "").endswith("parser::Parser")})
+        ok = bool(producers) and set(producers) <= {"parse_str", "parse_string_raw"}
+        ctx.ob("R12.8", f"parse_entry_lazy:key-from-key-parser#{k}", ok, f.loc(s_.get("ln")),
+               f"the member name comes from {producers}" + ("" if ok else ": a name that did not pass the validating key parser is yielded (raw control characters, undecoded text)"))
+
+
 def r12_s(ctx):
     """clauses of the validating skipper behind the checked iterators (shared with C02): whitespace classifiers, value-start alphabet, \\u digits, closing bracket after whitespace, one-fraction discipline"""
     from . import c02
@@ -305,4 +324,4 @@ def r12_s(ctx):
     ctx.include(c13.r13_6, 'R12.S')  # the unchecked iterators agree with the checked ones: escape carry across blocks
 
 
-RULES = [("R12.1", r12_1), ("R12.2", r12_2), ("R12.3", r12_3), ("R12.4", r12_4), ("R12.5", r12_5), ("R12.6", r12_6), ("R12.7", r12_7), ("R12.S", r12_s)]
+RULES = [("R12.1", r12_1), ("R12.2", r12_2), ("R12.3", r12_3), ("R12.4", r12_4), ("R12.5", r12_5), ("R12.6", r12_6), ("R12.7", r12_7), ("R12.8", r12_8), ("R12.S", r12_s)]
